@@ -419,7 +419,7 @@ func hsCases(o hx.Opts, emit func(string)) {
 	r := hx.NewRand(o.Seed + 77)
 	reps := 1
 	if o.Tier == "thorough" {
-		reps = 10
+		reps = 27 // 27 x 24 configurations = 648 handshakes
 	}
 	reps *= o.Scale
 	for rep := 0; rep < reps; rep++ {
